@@ -153,6 +153,97 @@ theorem C06_parses_back_chunked (r : Response) (close : Bool) (head : Bytes)
     rw [List.filter_append, filter_none r _ _ lower_te nte, List.append_nil, autoc_filter_te]
   · exact hdec
 
+/-- The strict parser on a head followed by a chunked body that the decoder finds incomplete. -/
+theorem parse_rendered_chunked_incomplete (code : Nat) (reason : Bytes) (fields : List (Bytes × Bytes)) (after : Bytes)
+    (h1 : 100 ≤ code) (h2 : code ≤ 999) (hr : reason.all Grammar.fieldByte = true)
+    (hf : ∀ f ∈ fields, Grammar.isToken f.1 = true ∧ ValueOk f.2)
+    (hcl : fields.filter (fun f => RespParser.lowerEq f.1 (b!"content-length")) = [])
+    (hte : ∃ nm, fields.filter (fun f => RespParser.lowerEq f.1 (b!"transfer-encoding")) = [(nm, b!"chunked")])
+    (hdec : ChunkDecoder.decode after = .incomplete) :
+    RespParser.parse (joinCrlf (statusL code reason :: fields.map lineOf) ++ 13 :: 10 :: 13 :: 10 :: after) =
+      .incomplete "chunked body" := by
+  have hL : ∀ l ∈ statusL code reason :: fields.map lineOf, CleanLine l := by
+    intro l hl
+    rcases List.mem_cons.mp hl with rfl | hl
+    · exact statusL_clean code reason hr
+    · obtain ⟨f, hfm, rfl⟩ := List.mem_map.mp hl
+      exact field_line_clean f.1 f.2 (hf f hfm).1 (hf f hfm).2
+  have hne : statusL code reason :: fields.map lineOf ≠ [] := by simp
+  have hany : (statusL code reason :: fields.map lineOf).any (fun l => l.contains 13 || l.contains 10) = false := by
+    rw [List.any_eq_false]
+    intro l hl
+    have := clean_contains l (hL l hl)
+    simp only [this, Bool.false_eq_true, not_false_eq_true]
+  have hparts : (fields.map lineOf).map Grammar.fieldLineParts = fields.map some := by
+    rw [List.map_map]
+    apply List.map_congr_left
+    intro f hfm
+    exact parse_field_line f.1 f.2 (hf f hfm).1 (hf f hfm).2
+  have hvals : fields.all (fun f => f.2.all Grammar.fieldByte) = true := by
+    rw [List.all_eq_true]; intro f hfm; exact (hf f hfm).2.1
+  obtain ⟨nm, hte⟩ := hte
+  unfold RespParser.parse
+  simp only [fbl_rendered _ hne hL, take_left', drop_left', List.drop_succ_cons, List.drop_zero,
+    splitCrlf_joinCrlf _ hne hL, hany, Bool.false_eq_true, if_false]
+  simp only [statusL, parse_status_line code h1 h2 reason hr, hparts]
+  have hnone : (fields.map some).any Option.isNone = false := by
+    rw [List.any_eq_false]; intro x hx; obtain ⟨f, _, rfl⟩ := List.mem_map.mp hx; simp
+  have hfm : (fields.map some).filterMap id = fields := by
+    induction fields with
+    | nil => rfl
+    | cons a t ih => simp
+  simp only [hnone, Bool.false_eq_true, if_false, hfm, hvals, Bool.not_true, hcl, hte, beq_self_eq_true, if_true, hdec]
+
+/-- **C08 / C07 at the message level: a body stream that fails can never be mistaken for a complete
+    response.**  Same response as in `C06_parses_back_chunked`, but the body source ends with an error
+    (after any number of pieces): the write reports the error, what was written is the head plus whole
+    chunks without the terminating chunk, and the strict parser answers *incomplete* — not a response. -/
+theorem C08_failed_stream_incomplete (r : Response) (close : Bool) (head : Bytes)
+    (hhead : headBytes false r close = .ok head)
+    (h1 : 100 ≤ r.code) (h2 : r.code ≤ 999)
+    (hct : ∀ c, r.ctype = some c → ValueOk c)
+    (hh : ∀ h ∈ r.headers, Grammar.isToken h.name = true ∧ ValueOk h.value)
+    (hl : r.body.len = none) (ho : r.body.src.openFails = false)
+    (hp : C07.PiecesOk r.body.src.pieces) (he : r.body.src.endsWithError = true) :
+    RespParser.parse (write false r close none).1 = .incomplete "chunked body" ∧
+    (∃ e, (write false r close none).2 = .error e) ∧
+    (write false r close none).1 = headOf r close ++ (r.body.src.pieces.map Chunked.encodeChunk).flatten := by
+  obtain ⟨hhd, ncl, nte, -⟩ := C06_head_shape r close head hhead
+  obtain ⟨hout, hres, hdec⟩ := C07.C07_error_truncates r.body.src hp he
+  have hw : write false r close none =
+      (headOf r close ++ (r.body.src.pieces.map Chunked.encodeChunk).flatten, .error (.errorReadingResponseBody "" [])) := by
+    simp only [write, intended, hhead, hhd, bodyPhase, hl, ho, Bool.false_eq_true, if_false, hres, hout]
+  rw [hw]
+  refine ⟨?_, ⟨_, rfl⟩, rfl⟩
+  simp only
+  rw [headOf_eq_chunked r close hl]
+  have happ : ∀ (a : Bytes) (b : Bytes), a ++ [13, 10, 13, 10] ++ b = a ++ 13 :: 10 :: 13 :: 10 :: b := by
+    intro a b; simp
+  rw [happ]
+  apply parse_rendered_chunked_incomplete r.code _ _ _ h1 h2 (reason_ok r.code)
+  · intro f hf
+    rcases List.mem_append.mp hf with hf | hf
+    · simp only [autoFieldsChunked, List.mem_append, List.mem_singleton] at hf
+      rcases hf with (hf | hf) | hf
+      · cases hc : r.ctype with
+        | none => simp [hc] at hf
+        | some c =>
+          simp only [hc, List.mem_singleton] at hf; subst hf
+          exact ⟨tok_ct, hct c hc⟩
+      · cases close with
+        | false => simp at hf
+        | true =>
+          simp only [if_true, List.mem_singleton] at hf; subst hf
+          exact ⟨tok_conn, close_valueOk⟩
+      · subst hf
+        exact ⟨tok_te, chunked_valueOk⟩
+    · obtain ⟨h, hm, rfl⟩ := List.mem_map.mp hf
+      exact hh h hm
+  · rw [List.filter_append, filter_none r _ _ lower_cl ncl, List.append_nil, autoc_filter_cl]
+  · refine ⟨b!"transfer-encoding", ?_⟩
+    rw [List.filter_append, filter_none r _ _ lower_te nte, List.append_nil, autoc_filter_te]
+  · rw [← hout]; exact hdec
+
 /-- Non-vacuity: an event-stream response (two pieces) parses back. -/
 example : RespParser.parse (write false
       { code := 200, ctype := some (b!"text/event-stream"), headers := [⟨b!"x-a", b!"1"⟩],
